@@ -116,6 +116,7 @@ fn main() {
         "srv-c09" => suites::srvsuites::c09(&mut rec, &mut rng, thorough),
         "srv-c10" => suites::srvsuites::c10(&mut rec, &mut rng, thorough),
         "srv-c18" => suites::srvsuites::c18(&mut rec, &mut rng, thorough),
+        "srv-enum" => suites::srvsuites::srv_enum(&mut rec, &mut rng, thorough),
         "srv-fault" => suites::srvsuites::srv_fault(&mut rec, &mut rng, thorough),
         "srv-conn" => suites::srvsuites::srv_conn(&mut rec, &mut rng, thorough),
         other => {
